@@ -1369,6 +1369,513 @@ theorem overloads_displayed (impl : Args) (ovs : List Args) (hne : ovs ≠ [])
   simp [this, hp]
 
 
+/-! ## `astutils.unstring_annotation` (`_AnnotationStringParser`) -/
+
+/-- erase every level of string quoting, everywhere (also inside `Literal[...]`): what is left is
+the expression's shape without regard to what was written as a forward reference -/
+def AnnE.strip : AnnE → AnnE
+  | .str e => e.strip
+  | .attr v n => .attr v.strip n
+  | .sub v s => .sub v.strip s.strip
+  | .tup a b => .tup a.strip b.strip
+  | .bor a b => .bor a.strip b.strip
+  | .atom a => .atom a
+  | .literalName => .literalName
+  | .noneLit => .noneLit
+  | .badStr a => .badStr a
+
+/-- no string constant is left, except verbatim inside the slice of a `Literal[...]` / `x.Literal[...]` -/
+def AnnE.noQuotes : AnnE → Bool
+  | .str _ => false
+  | .badStr _ => false
+  | .attr v _ => v.noQuotes
+  | .sub v s => v.noQuotes && (v.isLiteralRef || s.noQuotes)
+  | .tup a b => a.noQuotes && b.noQuotes
+  | .bor a b => a.noQuotes && b.noQuotes
+  | _ => true
+
+theorem unstringE_spec : ∀ (e r : AnnE), e.unstringE = some r →
+    r.strip = e.strip ∧ r.noQuotes = true ∧ r.unstringE = some r := by
+  intro e
+  induction e with
+  | atom a => intro r h; simp only [AnnE.unstringE, Option.some.injEq] at h; subst h; simp [AnnE.strip, AnnE.noQuotes, AnnE.unstringE]
+  | literalName => intro r h; simp only [AnnE.unstringE, Option.some.injEq] at h; subst h; simp [AnnE.strip, AnnE.noQuotes, AnnE.unstringE]
+  | noneLit => intro r h; simp only [AnnE.unstringE, Option.some.injEq] at h; subst h; simp [AnnE.strip, AnnE.noQuotes, AnnE.unstringE]
+  | badStr a => intro r h; simp [AnnE.unstringE] at h
+  | str e ih =>
+    intro r h
+    simp only [AnnE.unstringE] at h
+    obtain ⟨h1, h2, h3⟩ := ih r h
+    exact ⟨by simp [AnnE.strip, h1], h2, h3⟩
+  | attr v n ih =>
+    intro r h
+    simp only [AnnE.unstringE] at h
+    cases hv : v.unstringE with
+    | none => simp [hv] at h
+    | some v' =>
+      simp only [hv, Option.some.injEq] at h
+      subst h
+      obtain ⟨h1, h2, h3⟩ := ih v' hv
+      simp [AnnE.strip, AnnE.noQuotes, AnnE.unstringE, h1, h2, h3]
+  | sub v sl ihv ihs =>
+    intro r h
+    simp only [AnnE.unstringE] at h
+    cases hv : v.unstringE with
+    | none => simp [hv] at h
+    | some v' =>
+      obtain ⟨h1, h2, h3⟩ := ihv v' hv
+      simp only [hv] at h
+      by_cases hl : v'.isLiteralRef = true
+      · simp only [hl, if_true, Option.some.injEq] at h
+        subst h
+        simp [AnnE.strip, AnnE.noQuotes, AnnE.unstringE, h1, h2, h3, hl]
+      · have hl' : v'.isLiteralRef = false := by simpa using hl
+        simp only [hl', Bool.false_eq_true, if_false] at h
+        cases hs : sl.unstringE with
+        | none => simp [hs] at h
+        | some s' =>
+          simp only [hs, Option.some.injEq] at h
+          subst h
+          obtain ⟨g1, g2, g3⟩ := ihs s' hs
+          simp [AnnE.strip, AnnE.noQuotes, AnnE.unstringE, h1, h2, h3, g1, g2, g3, hl']
+  | tup a b iha ihb =>
+    intro r h
+    simp only [AnnE.unstringE] at h
+    cases ha : a.unstringE with
+    | none => simp [ha] at h
+    | some a' =>
+      cases hb : b.unstringE with
+      | none => simp [ha, hb] at h
+      | some b' =>
+        simp only [ha, hb, Option.some.injEq] at h
+        subst h
+        obtain ⟨h1, h2, h3⟩ := iha a' ha
+        obtain ⟨g1, g2, g3⟩ := ihb b' hb
+        simp [AnnE.strip, AnnE.noQuotes, AnnE.unstringE, h1, h2, h3, g1, g2, g3]
+  | bor a b iha ihb =>
+    intro r h
+    simp only [AnnE.unstringE] at h
+    cases ha : a.unstringE with
+    | none => simp [ha] at h
+    | some a' =>
+      cases hb : b.unstringE with
+      | none => simp [ha, hb] at h
+      | some b' =>
+        simp only [ha, hb, Option.some.injEq] at h
+        subst h
+        obtain ⟨h1, h2, h3⟩ := iha a' ha
+        obtain ⟨g1, g2, g3⟩ := ihb b' hb
+        simp [AnnE.strip, AnnE.noQuotes, AnnE.unstringE, h1, h2, h3, g1, g2, g3]
+
+/-- **`Signature.unstring_only_quotes`**: whatever `unstring_annotation` returns is the source
+expression up to string quoting — it never changes a name, an attribute, a subscript structure. -/
+theorem unstring_only_quotes (e : AnnE) : e.unstring.strip = e.strip := by
+  unfold AnnE.unstring
+  cases h : e.unstringE with
+  | none => rfl
+  | some r => exact (unstringE_spec e r h).1
+
+/-- **`Signature.unstring_result`**: the result is either the untouched original (exactly when a
+string inside is not an expression: a warning is reported) or free of quotes outside `Literal[...]`. -/
+theorem unstring_result (e : AnnE) :
+    (e.unstringE = none ∧ e.unstring = e) ∨ (e.unstringE = some e.unstring ∧ e.unstring.noQuotes = true) := by
+  unfold AnnE.unstring
+  cases h : e.unstringE with
+  | none => exact Or.inl ⟨rfl, rfl⟩
+  | some r => exact Or.inr ⟨rfl, (unstringE_spec e r h).2.1⟩
+
+/-- **`Signature.unstring_idempotent`** -/
+theorem unstring_idempotent (e : AnnE) : e.unstring.unstring = e.unstring := by
+  unfold AnnE.unstring
+  cases h : e.unstringE with
+  | none => simp [h]
+  | some r => simp [(unstringE_spec e r h).2.2]
+
+/-- **`Signature.literal_args_verbatim`**: the arguments of `Literal[...]` stay as written whatever
+prefix `Literal` is reached through (`Literal`, `typing.Literal`, `t.Literal`, `"t".Literal` …),
+while the prefix itself is unquoted. -/
+theorem literal_args_verbatim (v v' sl : AnnE) (hv : v.unstringE = some v') :
+    (AnnE.sub .literalName sl).unstring = .sub .literalName sl ∧
+    (AnnE.sub (.attr v 0) sl).unstring = .sub (.attr v' 0) sl := by
+  simp [AnnE.unstring, AnnE.unstringE, hv, AnnE.isLiteralRef]
+
+/-- … and any other subscript has its slice unquoted -/
+theorem other_subscript_unquoted (v v' sl sl' : AnnE) (hv : v.unstringE = some v')
+    (hl : v'.isLiteralRef = false) (hs : sl.unstringE = some sl') :
+    (AnnE.sub v sl).unstring = .sub v' sl' := by
+  simp [AnnE.unstring, AnnE.unstringE, hv, hl, hs]
+
+/-- non-vacuity: `t.Literal["a1"]` keeps its string, `List["a1"]`, `"List[a1]"`, `"'a1'"` lose theirs,
+`List["a1 !"]` (not an expression) is returned untouched. -/
+example :
+    (AnnE.sub (.attr (.atom 7) 0) (.str (.atom 1))).unstring = .sub (.attr (.atom 7) 0) (.str (.atom 1)) ∧
+    (AnnE.sub (.atom 8) (.str (.atom 1))).unstring = .sub (.atom 8) (.atom 1) ∧
+    (AnnE.str (.sub (.atom 8) (.atom 1))).unstring = .sub (.atom 8) (.atom 1) ∧
+    (AnnE.str (.str (.atom 1))).unstring = .atom 1 ∧
+    (AnnE.sub (.atom 8) (.badStr 1)).unstring = .sub (.atom 8) (.badStr 1) ∧
+    (AnnE.sub (.str .literalName) (.str (.atom 1))).unstring = .sub .literalName (.str (.atom 1)) := by
+  decide
+
+
+/-! ## Which `def`s get a signature: the decorator loop -/
+
+/-- the decorator is a dotted name that resolves to `typing.overload` / `typing_extensions.overload` -/
+def Deco.isOverloadDeco (d : Deco) : Bool := d.dotted.isSome && d.resolvesToOverload
+
+/-- the decorator's last component ends in `property` / `Property` -/
+def Deco.isPropertyDeco (d : Deco) : Bool :=
+  match d.dotted with
+  | none => false
+  | some (first, more) =>
+    endsWith ((first :: more).getLastD first) sProperty ||
+      endsWith ((first :: more).getLastD first) sPropertyCap
+
+theorem decoStep_overload (pc : Bool) (st : DecoState) (d : Deco) :
+    (decoStep pc st d).isOverload = (st.isOverload || d.isOverloadDeco) := by
+  unfold decoStep Deco.isOverloadDeco
+  cases hd : d.dotted with
+  | none => simp
+  | some fm =>
+    obtain ⟨first, more⟩ := fm
+    cases hr : d.resolvesToOverload <;> cases pc <;> simp <;> (repeat' split) <;> simp
+
+theorem decoStep_property (st : DecoState) (d : Deco) :
+    (decoStep true st d).isProperty = (st.isProperty || d.isPropertyDeco) := by
+  unfold decoStep Deco.isPropertyDeco
+  cases hd : d.dotted with
+  | none => simp
+  | some fm =>
+    obtain ⟨first, more⟩ := fm
+    dsimp only
+    generalize (endsWith ((first :: more).getLastD first) sProperty ||
+      endsWith ((first :: more).getLastD first) sPropertyCap) = b
+    cases b <;> cases d.resolvesToOverload <;>
+      simp only [Bool.false_eq_true, if_false, if_true, Bool.or_false, Bool.or_true] <;>
+      (repeat' split) <;> rfl
+
+theorem decoStep_property_module (st : DecoState) (d : Deco) :
+    (decoStep false st d).isProperty = st.isProperty ∧ (decoStep false st d).funcName = st.funcName ∧
+    (decoStep false st d).isClassmethod = st.isClassmethod ∧
+    (decoStep false st d).isStaticmethod = st.isStaticmethod := by
+  unfold decoStep
+  cases hd : d.dotted with
+  | none => simp
+  | some fm => obtain ⟨first, more⟩ := fm; cases hr : d.resolvesToOverload <;> simp
+
+theorem fold_overload (pc : Bool) (decos : List Deco) : ∀ (st : DecoState),
+    (decos.foldl (decoStep pc) st).isOverload = (st.isOverload || decos.any Deco.isOverloadDeco) := by
+  induction decos with
+  | nil => intro st; simp
+  | cons d ds ih => intro st; simp [ih, decoStep_overload, Bool.or_assoc]
+
+theorem fold_property (decos : List Deco) : ∀ (st : DecoState),
+    (decos.foldl (decoStep true) st).isProperty = (st.isProperty || decos.any Deco.isPropertyDeco) := by
+  induction decos with
+  | nil => intro st; simp
+  | cons d ds ih => intro st; simp [ih, decoStep_property, Bool.or_assoc]
+
+theorem fold_module (decos : List Deco) : ∀ (st : DecoState),
+    (decos.foldl (decoStep false) st).isProperty = st.isProperty ∧
+    (decos.foldl (decoStep false) st).funcName = st.funcName ∧
+    (decos.foldl (decoStep false) st).isClassmethod = st.isClassmethod ∧
+    (decos.foldl (decoStep false) st).isStaticmethod = st.isStaticmethod := by
+  induction decos with
+  | nil => intro st; simp
+  | cons d ds ih =>
+    intro st
+    obtain ⟨a, b, c, e⟩ := decoStep_property_module st d
+    obtain ⟨a', b', c', e'⟩ := ih (decoStep false st d)
+    simp only [List.foldl_cons]
+    exact ⟨a'.trans a, b'.trans b, c'.trans c, e'.trans e⟩
+
+/-- **`Signature.overload_by_resolution`**: whether a `def` is recorded as an overload depends only
+on whether one of its decorators is a dotted name that *resolves* to `typing.overload` /
+`typing_extensions.overload` — not on how it is spelled, not on the other decorators, not on the
+kind of parent. -/
+theorem overload_by_resolution (parent : ParentKind) (n : List Char) (decos : List Deco)
+    (name : List Char) (kind : FuncKind) (o : Bool)
+    (h : handleDef parent n decos = .function name kind o) : o = decos.any Deco.isOverloadDeco := by
+  unfold handleDef at h
+  split at h
+  · cases h
+  · simp only at h
+    split at h
+    · cases h
+    · simp only [DefOutcome.function.injEq] at h
+      rw [← h.2.2, fold_overload]
+      simp
+
+/-- **`Signature.property_iff`**: in a class a `def` is turned into a property attribute (and gets no
+signature) exactly when some decorator's last name component ends in `property`/`Property`;
+otherwise it is a function. Inner functions are skipped; at module level every `def` is a plain
+function under its own name. -/
+theorem property_iff (n : List Char) (decos : List Deco) :
+    (handleDef .cls n decos = .property n ↔ decos.any Deco.isPropertyDeco = true) ∧
+    (decos.any Deco.isPropertyDeco = false → ∃ name kind o, handleDef .cls n decos = .function name kind o) := by
+  unfold handleDef
+  simp only [reduceCtorEq, if_false, fold_property, Bool.false_or, decide_true]
+  constructor
+  · constructor
+    · intro h
+      split at h
+      · assumption
+      · cases h
+    · intro h; simp [h]
+  · intro h
+    simp [h]
+
+theorem module_level_function (n : List Char) (decos : List Deco) :
+    handleDef .module n decos = .function n .plain (decos.any Deco.isOverloadDeco) ∧
+    handleDef .func n decos = .skippedInner := by
+  refine ⟨?_, rfl⟩
+  unfold handleDef
+  obtain ⟨a, b, c, e⟩ := fold_module decos
+    { isProperty := false, isClassmethod := false, isStaticmethod := false, isOverload := false, funcName := n }
+  have hm : (ParentKind.module = ParentKind.cls) = False := by simp
+  simp only [reduceCtorEq, if_false, decide_false, a, b, c, e, Bool.false_eq_true, fold_overload, Bool.false_or]
+
+/-- non-vacuity: in a class `@functools.cached_property` makes a property, `@p.setter` renames the
+function to `p.setter`, `@staticmethod` + `@_ov` (resolving to overload) gives a static overload;
+at module level `@property` changes nothing and a non-dotted decorator is ignored. -/
+example :
+    handleDef .cls ['q'] [⟨some (['f'], [['c','a','c','h','e','d','_'] ++ sProperty]), false⟩] = .property ['q'] ∧
+    handleDef .cls ['p'] [⟨some (['p'], [sSetter]), false⟩] = .function (['p'] ++ sDotSetter) .plain false ∧
+    handleDef .cls ['g'] [⟨some (sStaticmethod, []), false⟩, ⟨some (['_','o','v'], []), true⟩]
+      = .function ['g'] .staticMethod true ∧
+    handleDef .module ['g'] [⟨some (sProperty, []), false⟩, ⟨none, true⟩] = .function ['g'] .plain false := by
+  decide
+
+/-! ## `format_function_def` / `format_signature`: the name after `def`, the `(...)` fallback -/
+
+theorem endsWith_append (a suf : List Char) : endsWith (a ++ suf) suf = true := by
+  simp [endsWith]
+
+theorem endsWith_split (s suf : List Char) (h : endsWith s suf = true) :
+    s = s.take (s.length - suf.length) ++ suf := by
+  simp only [endsWith, Bool.and_eq_true, decide_eq_true_eq, beq_iff_eq] at h
+  have := List.take_append_drop (s.length - suf.length) s
+  rw [h.2] at this
+  exact this.symm
+
+theorem rindexDot_setter (a : List Char) : rindexDot (a ++ sDotSetter) = some a.length := by
+  simp [rindexDot, sDotSetter, sSetter, List.findIdx_cons]
+
+theorem rindexDot_deleter (a : List Char) : rindexDot (a ++ sDotDeleter) = some a.length := by
+  simp [rindexDot, sDotDeleter, sDeleter, List.findIdx_cons]
+
+/-- **`Signature.shownName_spec`**: the name written after `def` is the function's name, with the
+`.setter` / `.deleter` suffix (given by `_handleFunctionDef` to property accessors) removed; the
+`rindex` never raises. -/
+theorem shownName_spec (n : List Char) :
+    (∀ a, n = a ++ sDotSetter → shownName n = some a) ∧
+    (∀ a, n = a ++ sDotDeleter → shownName n = some a) ∧
+    (endsWith n sDotSetter = false → endsWith n sDotDeleter = false → shownName n = some n) ∧
+    (shownName n).isSome = true := by
+  refine ⟨?_, ?_, ?_, ?_⟩
+  · intro a h; subst h
+    simp [shownName, endsWith_append, rindexDot_setter]
+  · intro a h; subst h
+    simp [shownName, endsWith_append, rindexDot_deleter]
+  · intro h1 h2; simp [shownName, h1, h2]
+  · unfold shownName
+    by_cases h1 : endsWith n sDotSetter = true
+    · have := endsWith_split n _ h1
+      rw [this]
+      simp [endsWith_append, rindexDot_setter]
+    · by_cases h2 : endsWith n sDotDeleter = true
+      · have := endsWith_split n _ h2
+        rw [this]
+        simp [endsWith_append, rindexDot_deleter]
+      · simp [h1, h2]
+
+theorem ellipsis_not_mem_paramStr (p : Param) : Token.ellipsis ∉ paramStr p := by
+  obtain ⟨n, k, d, a⟩ := p
+  cases k <;> cases d <;> cases a <;> simp [paramStr]
+
+theorem ellipsis_not_mem_renderLoop : ∀ (ps : List Param) (f1 f2 : Bool),
+    ∀ seg ∈ renderLoop ps f1 f2, Token.ellipsis ∉ seg := by
+  intro ps
+  induction ps with
+  | nil => intro f1 f2 seg h; cases f1 <;> simp [renderLoop] at h; subst h; simp
+  | cons p ps ih =>
+    intro f1 f2 seg h
+    simp only [renderLoop, List.mem_append, List.mem_cons, List.not_mem_nil, or_false] at h
+    rcases h with ((h | h) | h) | h
+    · split at h
+      · simp at h
+      · split at h <;> simp at h
+        subst h; simp
+    · split at h
+      · simp at h
+      · split at h <;> simp at h
+        subst h; simp
+    · subst h; exact ellipsis_not_mem_paramStr p
+    · exact ih _ _ seg h
+
+theorem ellipsis_not_mem_render (s : Sig) : Token.ellipsis ∉ render s := by
+  intro h
+  unfold render at h
+  simp only [List.cons_append, List.nil_append, List.mem_cons, List.mem_append, reduceCtorEq, false_or,
+    List.not_mem_nil, or_false] at h
+  rcases h with h | h
+  · rcases mem_joinComma _ _ h with h' | ⟨seg, hs, ht⟩
+    · cases h'
+    · exact ellipsis_not_mem_renderLoop _ _ _ seg hs ht
+  · cases hr : s.ret <;> simp [retTokens, hr] at h
+
+/-- every entry made by `_handleFunctionDef` has something to show -/
+def Shows (f : Func) : Prop := f.overloads ≠ [] ∨ f.signature.isSome = true
+
+theorem stepDef_cases (c c' : Contents) (df : Def) (h : stepDef c df = .ok c') :
+    c' = c ∨ ∃ base : Func,
+      (base = { signature := none, overloads := [] } ∨ dictGet c (.name df.name) = some base) ∧
+      c' = dictSet c (.name df.name)
+        (if df.isOverload then { base with overloads := base.overloads ++ [sigD df.args] }
+         else { base with signature := some (sigD df.args) }) := by
+  unfold stepDef at h
+  simp only at h
+  cases hsk : skipOf (reuseOf c df.name) df.isOverload with
+  | true => simp only [hsk, if_true, Res.ok.injEq] at h; exact Or.inl h.symm
+  | false =>
+    simp only [hsk, Bool.false_eq_true, if_false] at h
+    cases hs : signatureOf df.args with
+    | error e => simp [hs] at h
+    | ok sb =>
+      obtain ⟨sig, b⟩ := sb
+      have hsd : sigD df.args = sig := by simp [sigD, hs]
+      simp only [hs, Res.ok.injEq] at h
+      right
+      cases hr : reuseOf c df.name with
+      | none =>
+        refine ⟨{ signature := none, overloads := [] }, Or.inl rfl, ?_⟩
+        simp only [hr] at h
+        rw [← h, hsd]
+      | some f =>
+        have hg : dictGet c (.name df.name) = some f := by
+          unfold reuseOf at hr
+          cases hd : dictGet c (.name df.name) with
+          | none => simp [hd] at hr
+          | some f' =>
+            simp only [hd] at hr
+            split at hr
+            · simp only [Option.some.injEq] at hr; rw [hr]
+            · cases hr
+        refine ⟨f, Or.inr hg, ?_⟩
+        simp only [hr] at h
+        rw [← h, hsd]
+
+theorem dictGet_dictSet {V : Type} (d : List (Key × V)) (k k' : Key) (v : V) :
+    dictGet (dictSet d k v) k' = if k = k' then some v else dictGet d k' := by
+  by_cases h : k = k'
+  · subst h; simp [dictGet_dictSet_eq]
+  · simp [h, dictGet_dictSet_ne _ _ _ _ h]
+
+/-- what can be said of every entry after any sequence of `def`s `ds` -/
+def Sound (ds : List Def) (c : Contents) : Prop :=
+  ∀ n f, dictGet c (.name n) = some f →
+    (∀ s ∈ f.overloads, ∃ d ∈ ds, d.name = n ∧ d.isOverload = true ∧ s = sigD d.args) ∧
+    (∀ s, f.signature = some s → ∃ d ∈ ds, d.name = n ∧ d.isOverload = false ∧ s = sigD d.args) ∧
+    Shows f
+
+theorem sound_step (pre : List Def) (c c' : Contents) (df : Def) (hs : Sound pre c)
+    (h : stepDef c df = .ok c') : Sound (pre ++ [df]) c' := by
+  have mono : ∀ n f, ((∀ s ∈ f.overloads, ∃ d ∈ pre, d.name = n ∧ d.isOverload = true ∧ s = sigD d.args) ∧
+      (∀ s, f.signature = some s → ∃ d ∈ pre, d.name = n ∧ d.isOverload = false ∧ s = sigD d.args) ∧ Shows f) →
+      ((∀ s ∈ f.overloads, ∃ d ∈ pre ++ [df], d.name = n ∧ d.isOverload = true ∧ s = sigD d.args) ∧
+      (∀ s, f.signature = some s → ∃ d ∈ pre ++ [df], d.name = n ∧ d.isOverload = false ∧ s = sigD d.args) ∧ Shows f) := by
+    intro n f ⟨h1, h2, h3⟩
+    refine ⟨?_, ?_, h3⟩
+    · intro s hs'; obtain ⟨d, hd, r⟩ := h1 s hs'; exact ⟨d, by simp [hd], r⟩
+    · intro s hs'; obtain ⟨d, hd, r⟩ := h2 s hs'; exact ⟨d, by simp [hd], r⟩
+  rcases stepDef_cases c c' df h with rfl | ⟨base, hbase, rfl⟩
+  · intro n f hg; exact mono n f (hs n f hg)
+  · intro n f hg
+    rw [dictGet_dictSet] at hg
+    by_cases hn : Key.name df.name = Key.name n
+    · have hnn : df.name = n := by injection hn
+      simp only [hn, if_true, Option.some.injEq] at hg
+      have hb : (∀ s ∈ base.overloads, ∃ d ∈ pre ++ [df], d.name = n ∧ d.isOverload = true ∧ s = sigD d.args) ∧
+          (∀ s, base.signature = some s → ∃ d ∈ pre ++ [df], d.name = n ∧ d.isOverload = false ∧ s = sigD d.args) := by
+        rcases hbase with rfl | hb
+        · exact ⟨by simp, by simp⟩
+        · have := mono n base (hs n base (hnn ▸ hb))
+          exact ⟨this.1, this.2.1⟩
+      cases ho : df.isOverload with
+      | true =>
+        simp only [ho, if_true] at hg
+        subst hg
+        refine ⟨?_, hb.2, Or.inl (by simp)⟩
+        intro s hs'
+        simp only [List.mem_append, List.mem_singleton] at hs'
+        rcases hs' with hs' | rfl
+        · exact hb.1 s hs'
+        · exact ⟨df, by simp, hnn, ho, rfl⟩
+      | false =>
+        simp only [ho, Bool.false_eq_true, if_false] at hg
+        subst hg
+        refine ⟨hb.1, ?_, Or.inr rfl⟩
+        intro s hs'
+        simp only [Option.some.injEq] at hs'
+        exact ⟨df, by simp, hnn, ho, hs'.symm⟩
+    · simp only [hn, if_false] at hg
+      exact mono n f (hs n f hg)
+
+theorem sound_run : ∀ (ds pre : List Def) (c c' : Contents), Sound pre c → runDefs c ds = .ok c' →
+    Sound (pre ++ ds) c' := by
+  intro ds
+  induction ds with
+  | nil => intro pre c c' hs h; simp only [runDefs, Res.ok.injEq] at h; subst h; simpa using hs
+  | cons d ds ih =>
+    intro pre c c' hs h
+    simp only [runDefs] at h
+    cases h1 : stepDef c d with
+    | error e => simp [h1] at h
+    | ok c1 =>
+      simp only [h1] at h
+      have := ih (pre ++ [d]) c1 c' (sound_step pre c c1 d hs h1) h
+      simpa [List.append_assoc] using this
+
+/-- **`Signature.records_sound`**: after ANY sequence of `def`s in a scope (any mix of overloads,
+redefinitions, late overloads, several names) every overload record of an entry is the own
+signature of an `@overload` def of that name, and the primary signature is the own signature of a
+non-overload def of that name. -/
+theorem records_sound (ds : List Def) (c : Contents) (h : runDefs [] ds = .ok c) (n : Nat) (f : Func)
+    (hg : dictGet c (.name n) = some f) :
+    (∀ s ∈ f.overloads, ∃ d ∈ ds, d.name = n ∧ d.isOverload = true ∧ s = sigD d.args) ∧
+    (∀ s, f.signature = some s → ∃ d ∈ ds, d.name = n ∧ d.isOverload = false ∧ s = sigD d.args) := by
+  have hs0 : Sound [] [] := by intro n f hg; simp [dictGet] at hg
+  have := sound_run ds [] [] c hs0 h n f hg
+  simp only [List.nil_append] at this
+  exact ⟨this.1, this.2.1⟩
+
+/-- **`Signature.never_broken`**: for functions built from source the `(...)` fallback of
+`format_signature` for a missing signature is dead — every entry has a signature or overloads to
+show, and no rendered signature contains `...`. -/
+theorem never_broken (ds : List Def) (c : Contents) (h : runDefs [] ds = .ok c) (n : Nat) (f : Func)
+    (hg : dictGet c (.name n) = some f) : ∀ toks ∈ displayed f, Token.ellipsis ∉ toks := by
+  have hs0 : Sound [] [] := by intro n f hg; simp [dictGet] at hg
+  have hshow : Shows f := (sound_run ds [] [] c hs0 h n f hg).2.2
+  intro toks ht
+  unfold displayed at ht
+  by_cases ho : f.overloads ≠ []
+  · simp only [ho, ne_eq, not_false_eq_true, if_true, List.mem_map] at ht
+    obtain ⟨s, _, rfl⟩ := ht
+    exact ellipsis_not_mem_render s
+  · simp only [ho, if_false, List.mem_singleton] at ht
+    subst ht
+    rcases hshow with h1 | h1
+    · exact absurd h1 ho
+    · cases hsig : f.signature with
+      | none => simp [hsig] at h1
+      | some s => exact ellipsis_not_mem_render s
+
+/-- the fallback itself: a Function object without signature (not produced from source) and a
+signature whose rendering raises are both shown as `(...)` -/
+example : formatSignatureX none false = [.lparen, .ellipsis, .rparen] ∧
+    formatSignatureX (some ⟨[], none⟩) true = [.lparen, .ellipsis, .rparen] ∧
+    formatSignatureX (some ⟨[], none⟩) false = [.lparen, .rparen] := by decide
+
+
 /-! ## Non-vacuity: concrete definitions with all five kinds -/
 
 /-- `def f(p0, p1: "a1" = d1, /, p2=d2, *p3: a3, p4, p5: 'a5' = d5, **p6) -> None` -/
